@@ -3,7 +3,28 @@ import sys, os, importlib, argparse
 from . import common
 
 
+def devnull_guard():
+    """flex removes its output file when it fails, so a failing `flex -o /dev/null` run as root
+    (the repository's test suite does that under some source changes) unlinks /dev/null, and
+    every later subprocess of this harness would fail to start.  Put it back."""
+    import stat
+    try:
+        if stat.S_ISCHR(os.stat("/dev/null").st_mode):
+            return
+    except OSError:
+        pass
+    try:
+        if os.path.lexists("/dev/null"):
+            os.unlink("/dev/null")
+        os.mknod("/dev/null", 0o666 | stat.S_IFCHR, os.makedev(1, 3))
+        os.chmod("/dev/null", 0o666)
+    except OSError as e:
+        print("HARNESS FAILURE: /dev/null is not a character device and cannot be restored: %s" % e)
+        sys.exit(2)
+
+
 def main():
+    devnull_guard()
     ap = argparse.ArgumentParser()
     ap.add_argument("pid")
     ap.add_argument("--tier", default=os.environ.get("VERIF_TIER", "quick"))
